@@ -34,7 +34,7 @@
    `only_view` along whole operations (which cells a call may store where);
    see docs/C03.md. *)
 From Coq Require Import List ZArith Bool Arith.
-From SC Require Import Base.Res Base.PyList Inst.Heap Inst.ClassTable Inst.Model Inst.TypeProofs.
+From SC Require Import Base.Res Base.PyList Inst.Heap Inst.ClassTable Inst.Model Inst.TypeProofs Inst.TypeCopy.
 Import ListNotations.
 Open Scope nat_scope.
 
@@ -126,6 +126,14 @@ Proof.
   destruct (deepcopy_hoare ct v s I T) as [E [_ R]]. rewrite H in E, R. cbn [fst snd] in E, R.
   eapply rsame_check; eauto. eapply check_simple_ext; eauto.
 Qed.
+
+(* ... and to every FLAT annotation (List/Dict/Set of container-free elements):
+   the copy is built element by element from copies of the elements *)
+Theorem C03_copy_conforms_flat :
+  forall ct v s r s' t,
+    TInvP simple ct (heap s) -> deepcopy ct v s = (Ok r, s') -> flat t = true ->
+    check_type FUEL ct (heap s) v t = true -> check_type FUEL ct (heap s') r t = true.
+Proof. intros ct v s r s' t T H Ft C. eapply copy_conforms_flat; eauto. Qed.
 
 (* ---------------- 3. collections: single writes and the full invariant ---------------- *)
 Theorem C03_list_inserter_keeps :
@@ -281,6 +289,7 @@ Print Assumptions C03_step_preserves_partial.
 Print Assumptions C03_step_preserves_scalar_tables.
 Print Assumptions C03_cells_keep_their_class.
 Print Assumptions C03_copy_conforms.
+Print Assumptions C03_copy_conforms_flat.
 Print Assumptions C03_list_inserter_keeps.
 Print Assumptions C03_dict_inserter_keeps.
 Print Assumptions C03_set_inserter_keeps.
